@@ -310,12 +310,12 @@ def replay_l183(cfg, m):
     return ep.log != want, 'cuts=%s delivered=%d of %d' % (pos, len(ep.log), k)
 
 
-R.add('L18.3', l183, lambda tier: ([dict(k=1, cuts=1, maxlen=2), dict(k=2, cuts=1, maxlen=1), dict(k=2, cuts=0, maxlen=1)] if tier == 'quick'
+R.add('L18.3', l183, lambda tier: ([dict(k=1, cuts=1, maxlen=2), dict(k=2, cuts=1, maxlen=1), dict(k=2, cuts=0, maxlen=1), dict(k=2, cuts=2, maxlen=1)] if tier == 'quick'
                                    else [dict(k=1, cuts=2, maxlen=3), dict(k=2, cuts=2, maxlen=2), dict(k=3, cuts=1, maxlen=1), dict(k=3, cuts=0, maxlen=1)]),
       replay=replay_l183,
       desc='k masked client frames cut at symbolic positions into chunks fed to the real handler: each frame delivered once, in order, unmasked',
       expect=['every client frame is delivered exactly once', 'payload delivered unmasked'],
-      bounds='k<=2 frames, payload <= 2 bytes, <= 1 cut (thorough: k<=3, payload <= 3, <= 2 cuts)')
+      bounds='k<=2 frames, payload <= 2 bytes, <= 2 cuts (thorough: k<=3, payload <= 3, <= 2 cuts)')
 
 
 # ------------------------------------------------------------------ L18.5 large frames split inside their header
